@@ -80,6 +80,9 @@ class RadialClamp(ClampBase):
     ):
         position = np.array(position)
         initial_point = np.copy(position)
+        # the circle is the one declared here, whatever happens to the caller's arrays later
+        center = np.array(center)
+        normal = np.array(normal)
 
         if bounds is not None:
             clamp_bounds = [bounds]
